@@ -188,3 +188,25 @@ def check_copy_content_snapshot(ctx, rule):
                        "unknown": f"cannot tell whether `{norm(v)[:60]}` was materialised when the copy was made"}.get(kind, "")
                 ctx.check(rule, f"the callback hands out `{norm(v)[:50]}`: materialised when the copy was made", v, kind == "eager", why,
                           construct=f"{Q}::bytes {norm(v)[:60]}")
+
+
+def literal_elements(expr, scope_node):
+    """Elements of a list/tuple/set literal, following one local / class-level / module-level name."""
+    if isinstance(expr, (ast.List, ast.Tuple, ast.Set)):
+        return list(expr.elts)
+    if isinstance(expr, (ast.Name, ast.Attribute)):
+        name = expr.id if isinstance(expr, ast.Name) else expr.attr
+        n = scope_node
+        while n is not None:
+            body = getattr(n, "body", None)
+            if isinstance(body, list):
+                for s in body:
+                    tgts = s.targets if isinstance(s, ast.Assign) else ([s.target] if isinstance(s, ast.AnnAssign) and s.value is not None else [])
+                    for t in tgts:
+                        if (isinstance(t, ast.Name) and t.id == name) or (isinstance(t, ast.Attribute) and t.attr == name):
+                            if isinstance(s.value, (ast.List, ast.Tuple, ast.Set)):
+                                return list(s.value.elts)
+                            if isinstance(s.value, ast.Call) and dotted(s.value.func) in ("frozenset", "set", "tuple", "list") and s.value.args and isinstance(s.value.args[0], (ast.List, ast.Tuple, ast.Set)):
+                                return list(s.value.args[0].elts)
+            n = getattr(n, "_parent", None)
+    return None
